@@ -47,6 +47,7 @@ type msgObs struct {
 	Msg         string   `json:"msg"`
 	Placeholder bool     `json:"placeholder"`
 	Src         string   `json:"src"`
+	FParams     []string `json:"fparams"` // the parameters a formatting function (test MessageFunc, execution formatter) saw when it was called
 }
 
 var phRe = regexp.MustCompile(`\{\{([a-zA-Z_]+)\}\}`)
@@ -88,7 +89,7 @@ func topts(tcfg string) []z.TestOption {
 	case "message":
 		return []z.TestOption{z.Message("T:custom message")}
 	case "messagefunc":
-		return []z.TestOption{z.MessageFunc(func(e *z.ZogIssue, c z.Ctx) { e.SetMessage("TF:" + e.Code) })}
+		return []z.TestOption{z.MessageFunc(func(e *z.ZogIssue, c z.Ctx) { e.SetMessage("TF:" + e.Code + seenParams(e)) })}
 	}
 	return nil
 }
@@ -432,6 +433,16 @@ func stringEntry(test string, o []z.TestOption) *z.StringSchema[string] {
 	panic("stringEntry " + test)
 }
 
+// a formatting function writes into its message which parameters the issue carried when it was called
+func seenParams(e *z.ZogIssue) string {
+	keys := []string{}
+	for k := range e.Params {
+		keys = append(keys, k)
+	}
+	sort.Strings(keys)
+	return "|" + strings.Join(keys, ",")
+}
+
 func msgSource(msg string) string {
 	switch {
 	case strings.HasPrefix(msg, "T:"):
@@ -495,7 +506,7 @@ func cmdMsgTab(args []string) {
 			}
 		}
 		if r.Ecfg == "fmt" {
-			eo = append(eo, z.WithIssueFormatter(func(e *z.ZogIssue, c z.Ctx) { e.SetMessage("E:" + e.Code) }))
+			eo = append(eo, z.WithIssueFormatter(func(e *z.ZogIssue, c z.Ctx) { e.SetMessage("E:" + e.Code + seenParams(e)) }))
 		}
 		var issues []*z.ZogIssue
 		func() {
@@ -517,7 +528,13 @@ func cmdMsgTab(args []string) {
 			}
 			sort.Strings(keys)
 			o := msgObs{ID: fmt.Sprintf("m%d", n), Row: r.ID, Code: i.Code, Dtype: i.Dtype, Params: keys, HasValue: i.Value != nil || r.Test == "required" || strings.HasSuffix(r.Test, "not_nil") || (strings.Contains(r.Test, "invalid_") || strings.Contains(r.Test, "null_json")), // absent values / undecodable bodies have no value to point at
-				Msg: i.Message, Placeholder: strings.Contains(i.Message, "{{"), Src: msgSource(i.Message)}
+				Msg: i.Message, Placeholder: strings.Contains(i.Message, "{{"), Src: msgSource(i.Message), FParams: keys}
+			if k := strings.Index(i.Message, "|"); k >= 0 && (o.Src == "test:messagefunc" || o.Src == "exec") {
+				o.FParams = []string{}
+				if i.Message[k+1:] != "" {
+					o.FParams = strings.Split(i.Message[k+1:], ",")
+				}
+			}
 			b, _ := json.Marshal(o)
 			w.Write(b)
 			w.WriteByte('\n')
